@@ -21,6 +21,9 @@ import (
 // with R and N coming from the public key. The exponents are hashed if their length
 // exceeds the maximum message length from the public key.
 func RepresentToPublicKey(pk *gabikeys.PublicKey, exps []*big.Int) (*big.Int, error) {
+	if len(exps) > len(pk.R) {
+		return nil, errors.New("more messages than bases in the public key")
+	}
 	return common.RepresentToBases(pk.R, exps, pk.N, pk.Params.Lm), nil
 }
 
